@@ -27,51 +27,51 @@ def claim(pid, engine, technique, text, note, ref):
 
 
 claim('C13', 'iosim',
-      'deterministic simulation: seeded save/read histories vs in-memory reference model, ddmin-minimised replay files',
-      "Seeded search over histories of save_data/read_data calls (overwrites, subsets, unsorted/ragged/None data, path variants, 3 PYTHONHASHSEED classes) against the real functions on a real (tmpfs) directory; every READ is compared entry by entry with a last-write-wins reference map and argument objects are digested before/after each call. Sampling, not proof: a clean batch is evidence over the stated history family.",
+      'deterministic simulation with fault injection: seeded save/read histories with injected I/O errors (h5py seam: ENOSPC at create, EIO/EACCES at open/delete) and failing calls vs an in-memory reference model (old/new/absent after a failed save); ddmin-minimised replay files',
+      "Seeded search over histories of save_data/read_data calls (overwrites, subsets, unsorted/ragged/None data, path variants, 3 PYTHONHASHSEED classes) against the real functions on a real (tmpfs) directory; every READ is compared entry by entry with a last-write-wins reference map and argument objects are digested before/after each call. In 30% of the runs one h5py call inside a save/read fails (n-th create_dataset / open / delete, before or after it took effect) or a save names a variable that is not in the dictionary: entries the failed save targeted may then be old, new or absent - never anything else - and untouched entries must be unaffected. The caller also scribbles on arrays it got back or had saved (stored data must not change) and keeps others (which must never be altered by later calls). Sampling, not proof: a clean batch is evidence over the stated history family.",
       "Trusted: h5py/tmpfs, the 60-line reference map, the generator's restriction to it-values present in data['it'].",
       'DESIGN.md section 4 (C13)')
 
 claim('C11', 'etsim+iosim',
-      'deterministic simulation: seeded simulated Einstein-Toolkit writer (process decomposition, layouts, crash/restart overlap) + real readers under seeded enumeration order and hash seeds, cell-level ground-truth oracle',
-      "Seeded search over simulated ET runs (1-4 restarts with overlapping iterations, 1-2 levels, 1-30 processes in tensor-product / hierarchical / k-d decompositions, permuted chunk numbering, the 4 file layouts and key variants, empty restarts) read back through the real aurel.reading code under a seeded directory-enumeration order and 3 PYTHONHASHSEED classes. Every returned cell is compared with the writer's ground truth, in which each value encodes (variable, restart, level, iteration, i, j, k). Sampling, not proof.",
-      "Trusted: the etsim writer model reproduces what Carpet writes as far as aurel reads it (validated against the four repository fixtures' attributes); h5py/tmpfs. One recorded known finding (stride change between restarts).",
+      'deterministic simulation: seeded simulated Einstein-Toolkit writer (process decomposition, layouts, crash/restart overlap) + real readers under seeded enumeration order and hash seeds, injected read errors (h5py seam), cell-level ground-truth oracle',
+      "Seeded search over simulated ET runs (1-4 restarts with overlapping iterations, 1-2 levels, 1-30 processes in tensor-product / hierarchical / k-d decompositions, permuted chunk numbering, the 4 file layouts and key variants, empty restarts) read back through the real aurel.reading code under a seeded directory-enumeration order and 3 PYTHONHASHSEED classes. Every returned cell is compared with the writer's ground truth, in which each value encodes (variable, restart, level, iteration, i, j, k). In 30% of the runs one file open inside a read or catalogue call fails (EIO): that call may raise, every later call must be exact. Sampling, not proof.",
+      "Trusted: the etsim writer model reproduces what Carpet writes as far as aurel reads it (validated against the four repository fixtures' attributes); h5py/tmpfs.",
       'DESIGN.md section 4 (C11), 3.3')
 claim('C12', 'etsim+iosim',
-      'deterministic simulation: seeded histories of cached/uncached read_data calls on a simulated run, ground-truth oracle + audit of every cache dataset after every call',
-      "Seeded search over histories of 2-8 read_data calls (split_per_it True/False interleaved; iteration/variable/level/restart subsets; tensor names vs component names; biased to partially filled caches) on a simulated multi-restart ET run starting from an empty cache. After every call the returned arrays are compared with ground truth and every dataset of every all_iterations/it_<n>.hdf5 is audited against the (variable, iteration, level, restart) it is filed under, so a poisoned cache is reported at the call that wrote it. Sampling, not proof.",
+      'deterministic simulation: seeded histories of cached/uncached read_data calls on a simulated run, injected I/O errors while the cache is written or read (h5py seam), ground-truth oracle + audit of every cache dataset after every call',
+      "Seeded search over histories of 2-8 read_data calls (split_per_it True/False interleaved; iteration/variable/level/restart subsets; tensor names vs component names; biased to partially filled caches) on a simulated multi-restart ET run starting from an empty cache. After every call the returned arrays are compared with ground truth and every dataset of every all_iterations/it_<n>.hdf5 is audited against the (variable, iteration, level, restart) it is filed under, so a poisoned cache is reported at the call that wrote it. In 30% of the runs one h5py call of a read fails (ENOSPC at the n-th create_dataset, EIO/EACCES at the n-th open): the failed call may raise or (where the catalogue skips an unreadable restart) lose data, but it never returns wrong cells, the audit holds unconditionally, and every later call is exact again. Sampling, not proof.",
       "Trusted: etsim model (as C11), h5py/tmpfs. Only variables present in the simulation are requested.",
       'DESIGN.md section 4 (C12)')
 claim('C18', 'etsim+iosim',
-      'deterministic simulation: seeded interleaving of a simulated ET writer (output/checkpoint/crash/restart events) with catalogue calls; ground truth, file<->memory round trip and incremental-vs-fresh-scan oracles',
-      "Seeded schedules interleave writer events of a simulated ET run with iterations()/read_iterations()/get_content() calls (skip_last protocol), with simulation names and paths drawn from a hostile token alphabet, 4 layouts, empty restarts, seeded enumeration order and 3 hash seeds. Each returned catalogue is compared with the writer's ground truth, iterations.txt/content.txt are parsed back and compared with what was returned in memory, the incrementally built catalogue is compared with one fresh scan of a pristine copy, and every generated dataset key / file name / .par file is parsed back. Sampling, not proof.",
+      'deterministic simulation: seeded interleaving of a simulated ET writer (output/checkpoint/crash/restart events) with catalogue calls; injected read errors inside catalogue calls (h5py seam); ground truth, file<->memory round trip and incremental-vs-fresh-scan oracles',
+      "Seeded schedules interleave writer events of a simulated ET run with iterations()/read_iterations()/get_content() calls (skip_last protocol), with simulation names and paths drawn from a hostile token alphabet, 4 layouts, empty restarts, seeded enumeration order and 3 hash seeds. Each returned catalogue is compared with the writer's ground truth, iterations.txt/content.txt are parsed back and compared with what was returned in memory, the incrementally built catalogue is compared with one fresh scan of a pristine copy, and every generated dataset key / file name / .par file is parsed back. In 30% of the runs one file open inside a catalogue call fails: that call may raise or skip the restart it could not read; what it recorded is modelled as uncertain until the next call completes, and every later result (incl. the final comparison with a fresh scan) must be exact. File numbers of per-process output may have gaps. Sampling, not proof.",
       "Trusted: etsim model; call-granularity interleaving is exact only under the documented protocol (skip_last=True while the writer runs). 'overall' is checked independently only in the regular single-stride case.",
       'DESIGN.md section 4 (C18)')
 
 _CORE_NOTE = "Trusted: NumPy/h5py; the reference model (a fresh AurelCore with clean-up disabled, asked only the one request) and, for exact-solution inputs, the independent refgr oracle (validated against aurel to 1e-8 on data where both constructions are right). Physical-branch keys are compared only on on-shell inputs with truncation-aware tolerances; ill-conditioned comparisons are counted as inconclusive."
 claim('C01', 'coresim',
-      'deterministic simulation: seeded guard-aware request histories x seeded eviction knobs (fault = loss of cached state at points the caller does not control) vs a fresh no-eviction reference instance; ddmin-minimised replay files',
-      "Seeded search over (generated non-flat spacetime presented through a seeded input set) x (cache knobs: clean-up period 1..20, memory threshold 1..40 scalars or default, importance overrides) x (guard-aware history of GET/HELPER/SET_IMPORTANCE ops). After every op the returned value or exception is compared with a fresh instance that holds only the inputs and is asked only that request. Eviction fires inside nested computations in most runs. Sampling, not proof.",
+      'deterministic simulation: seeded guard-aware request histories x seeded eviction knobs (fault = loss of cached state at points the caller does not control) and injected allocation failures inside requests (n-th nested computation / n-th call of an aurel function via sys.settrace / n-th einsum via a numpy proxy, counted from the start or the end of the request) vs a fresh no-eviction reference instance; ddmin-minimised replay files',
+      "Seeded search over (generated non-flat spacetime presented through a seeded input set) x (cache knobs: clean-up period 1..20, memory threshold 1..40 scalars or default, importance overrides) x (guard-aware history of GET/HELPER/SET_IMPORTANCE ops). After every op the returned value or exception is compared with a fresh instance that holds only the inputs and is asked only that request. Eviction fires inside nested computations in most runs. About 7% of the requests carry one injected allocation failure; the failed request promises nothing, every later request is compared as usual. Inputs may be supplied after the caller looked at their default. Sampling, not proof.",
       _CORE_NOTE, 'DESIGN.md section 4 (C01)')
 claim('C02', 'coresim+timesim+iosim',
-      'deterministic simulation: seeded request / over_time / save-read histories with a byte-checksum + read-only-flag registry of every array and argument object supplied or returned, re-verified after every op',
-      "70% of runs: the C01 workload with a registry of every array the user supplied (inputs, helper arguments) or an earlier request returned (strong references, so they outlive eviction): checksums recomputed after every op and every registered array flagged read-only so that an in-place write raises at its source line; TOUCH_ALL ops (pure hits on everything cached) hand out all cached arrays. 15%: the over_time workload of C14 with the per-step input arrays registered the same way and vars/estimates/data arguments digested before and after each call. 15%: the save_data/read_data workload of C13 with argument digests. Sampling, not proof.",
+      'deterministic simulation: seeded request / over_time / save-read histories with a byte-checksum + read-only-flag registry of every array and argument object supplied or returned, re-verified after every op (incl. ops that fail through an injected fault)',
+      "65% of runs: the C01 workload with a registry of every array the user supplied (inputs, helper arguments) or an earlier request returned (strong references, so they outlive eviction): checksums recomputed after every op and every registered array flagged read-only so that an in-place write raises at its source line; TOUCH_ALL ops (pure hits on everything cached) hand out all cached arrays. 15%: the over_time workload of C14 with the per-step input arrays registered the same way and vars/estimates/data arguments digested before and after each call. 12%: the save_data/read_data workload of C13 with argument digests and a registry of the arrays read_data returned; 8%: read_data on simulated Einstein Toolkit output (argument digests). Sampling, not proof.",
       _CORE_NOTE + " Arrays cached internally but never handed to the caller are outside C02 (covered by C01's AUDIT op).", 'DESIGN.md section 4 (C02), 10.2')
 claim('C03', 'coresim',
-      'deterministic simulation: same histories at maximal eviction pressure with bookkeeping invariants checked after every op and every clean-up',
-      "The C01 workload weighted to maximal pressure (period 1-3, thresholds of a few scalars, importance overrides incl. 0) with inputs frozen by freeze_data / load_data (and by over_time inside C14). Invariants after every op: frozen entries present, same object, same bytes; age table subset of cache; entries replaced only after an eviction; clean-up raises nothing and makes <= (n+2)^2 size evaluations (bounded progress); watchdog never fires. Sampling, not proof.",
+      'deterministic simulation: same histories at maximal eviction pressure and injected allocation failures, with bookkeeping invariants checked after every op and every clean-up',
+      "The C01 workload weighted to maximal pressure (period 1-3, thresholds of a few scalars, importance overrides incl. 0) with inputs frozen by freeze_data / load_data (and by over_time inside C14), incl. inputs supplied after the caller looked at their default and requests that fail midway (injected allocation failure). Invariants after every op: frozen entries present, same object, same bytes; age table subset of cache; entries replaced only after an eviction; clean-up raises nothing and makes <= (n+2)^2 size evaluations (bounded progress); watchdog never fires. Sampling, not proof.",
       _CORE_NOTE, 'DESIGN.md section 4 (C03)')
 claim('C10', 'coresim',
       'deterministic simulation: history prefixes select the cache state that decides which Weyl construction runs; invariants evaluated on each reached state against an independent exact-GR reference',
-      "Seeded (exact-solution spacetime: HOM, long-wavelength ON, vacuum Kasner) x tetrad x vacuum flag x cache knobs x history prefix (nothing cached / Riemann cached / Riemann cached then evicted / Weyl before Riemann / E-B first / random). On the reached state: Weyl vs exact, the other construction on a second instance, Riemann unchanged, trace-free + symmetries, E/B symmetric/trace-free/equal to normal-frame contractions, E_u/B_u, tetrad orthonormality, Psi = contractions with the returned null tetrad, I and J independent of the orthonormal tetrad. Sampling over the stated family; the algebraic clauses add no claim beyond it.",
+      "Seeded (exact-solution spacetime: HOM, long-wavelength ON, vacuum Kasner) x tetrad x vacuum flag x cache knobs x history prefix (nothing cached / Riemann cached / Riemann cached then evicted / Weyl before Riemann / E-B first / random / an allocation failure late inside the request that builds the Weyl tensor or one of its ingredients). On the reached state: Weyl vs exact, the other construction on a second instance, Riemann unchanged, trace-free + symmetries, E/B symmetric/trace-free/equal to normal-frame contractions, E_u/B_u, tetrad orthonormality, Psi = contractions with the returned null tetrad, I and J independent of the orthonormal tetrad. Sampling over the stated family; the algebraic clauses add no claim beyond it.",
       _CORE_NOTE, 'DESIGN.md section 4 (C10)')
 claim('C14', 'timesim',
-      'deterministic simulation: seeded row order x temporal key x partition of the requests over successive over_time calls x cache knobs, vs harness-side per-step recomputation on fresh instances',
-      "Tables of 1-6 distinct time steps (genuine time series of a generated metric, or independent off-shell slices) in seeded row order, request lists of built-in and custom variables and estimates partitioned over 1-4 successive over_time calls, aggressive cache knobs in rel_kwargs; aurel.core.AurelCore is rebound to an observing subclass so that every instance created inside over_time is monitored (evictions, frozen entries). Final table: keys == single-call table, rows sorted with all columns permuted together, inputs preserved, every variable == fresh per-step computation, every estimate == estimator(returned array), arguments untouched. Sampling, not proof.",
+      'deterministic simulation: seeded row order x temporal key x partition of the requests over successive over_time calls x cache knobs x a call that fails midway (a user function raises at a seeded invocation) and is run again, vs harness-side per-step recomputation on fresh instances',
+      "Tables of 1-6 distinct time steps (genuine time series of a generated metric, or independent off-shell slices) in seeded row order, request lists of built-in and custom variables and estimates partitioned over 1-4 successive over_time calls, aggressive cache knobs in rel_kwargs; aurel.core.AurelCore is rebound to an observing subclass so that every instance created inside over_time is monitored (evictions, frozen entries). Final table: keys == single-call table, rows sorted with all columns permuted together, inputs preserved, every variable == fresh per-step computation, every estimate == estimator(returned array) (estimators written down independently), arguments untouched - also after a call that failed midway, which is then repeated; afterwards an ordinary call on another table must be unaffected by anything the history left in the process. Input columns may have non-native byte order. Sampling, not proof.",
       _CORE_NOTE + " A split is a call sequence whose last call carries the full estimate list.", 'DESIGN.md section 4 (C14)')
 claim('C15', 'symsim',
-      'deterministic simulation: seeded request orders (cache state selects the branch) x simplify flag x generated metric family vs an independent pointwise full-sum reference at seeded rational points',
-      "Generated symbolic metrics (dim 2-4; diagonal, non-diagonal, conformally flat; polynomial/rational/exp entries) x simplify flag x seeded request sequences with repeats over the ten quantities. After every request the returned object is evaluated at 3 rational points and compared with textbook full-sum tensors computed pointwise with exact/40-digit arithmetic. simplify=True only where sympy finishes (2-D, diagonal 3-D); runs that exceed the time budget are counted as inconclusive. Sampling, not proof.",
+      'deterministic simulation: seeded request orders (cache state selects the branch) x simplify flag x generated metric family x requests interrupted between caching and post-processing (n-th sympy.simplify / progress message raises) and then repeated, vs an independent pointwise full-sum reference at seeded rational points',
+      "Generated symbolic metrics (dim 2-4; diagonal, non-diagonal, conformally flat; polynomial/rational/exp entries) x simplify flag x seeded request sequences with repeats over the ten quantities. After every request the returned object is evaluated at 3 rational points and compared with textbook full-sum tensors computed pointwise with exact/40-digit arithmetic. simplify=True only where sympy finishes (2-D, diagonal 3-D); runs that exceed the time budget are counted as inconclusive. In 30% of the runs some requests are interrupted inside the n-th simplify call (simplify=True) or progress message (verbose=True); the interrupted request promises nothing, every later one is compared as usual. Sampling, not proof.",
       "Trusted: sympy differentiation of metric entries and exact arithmetic; equality tested at points, not symbolically.", 'DESIGN.md section 4 (C15)')
 
 
